@@ -8,10 +8,29 @@ E1NOTE = ('trusted: clang-14 IR of the tree as the program text, the E1 interpre
           'sampled solver models of passing paths against a native gcc+nasm build and comparing the observation trace), z3; '
           'assumed: exact real arithmetic for simulation times, allocation never fails, logging off, the coroutine switch '
           'contract established by the asm->SMT check of C03')
+SIMNOTE = E1NOTE + '; bounded: <= 4 processes with <= 6 scripted operations each, families listed in evidence'
+def sim(text, ref):
+    return dict(engine='E1 symex', technique='path-wise symbolic execution of real process coroutines through the real dispatcher (clang IR + z3); same-instant coincidences are solver-chosen equalities of symbolic times',
+                text=text, ref=ref, note=SIMNOTE)
 CHECKS = {
  'C01': dict(engine='E1 symex', technique='path-wise symbolic execution of the real cmb_event.c/cmi_hashheap.c IR with z3 (BV64 priorities, real times)',
              text='Every feasible ordering and tie pattern of 3 (thorough 4) events with symbolic time and full-range int64 priority, with one (two) symbolic mutation(s) issued before the run or from inside a running action, is explored as a solver-decided path; the oracle is a shadow of the pending set updated only from API calls. Bounded model checking: nothing is claimed beyond the stated event counts, growth steps (8->16, thorough ->32) and real-valued times.',
              ref='DESIGN.md section 4 C01', note=E1NOTE),
+ 'C02': dict(engine='E1 symex + E2 cbmc', technique='symbolic execution of cmi_hashheap.c over operation histories with symbolic sort keys/keys (z3) + CBMC algebra of the five ordering functions',
+             text='Histories of 3-9 enqueues plus 1-2 (thorough 3) operations from the full operation set, each of the five real ordering functions, initial exponents 1-3 across the 2->4->8->16 doublings (thorough 32), automatically issued, colliding candidate and fully symbolic caller keys; shadow map + structural walker after every operation. CBMC shows each ordering function is the documented strict order for all key triples.',
+             ref='DESIGN.md section 4 C02', note=E1NOTE + '; page size stubbed to 256; cbmc 6.11 trusted for the algebra part'),
+ 'C04': sim('Scripts combining hold, timers (add/cancel/clear), interrupts, stops, wait-for-process/event, yield/resume and waits on resource, pool, buffer, queues and condition; a ledger of issued notifications decides that every non-success return is exactly one undelivered notification at its instant, that success of hold means start+d, that nothing of a finished wait stays queued, and that nobody is left suspended at quiescence.', 'DESIGN.md section 4 C04'),
+ 'C05': sim('Acquire/hold/release/preempt scripts of 3-4 processes with symbolic priorities and hold times (0 allowed), waiters that time out, are interrupted or stopped, holders that exit, return or are stopped; shadow owner vs. every successful return and the holder/in-use/available queries after every event.', 'DESIGN.md section 4 C05'),
+ 'C06': dict(engine='E2 cbmc + E1 symex', technique='CBMC: ordering function = documented lexicographic strict order for all triples; E1: symbolic priorities/arrival instants over waiter scripts',
+             text='The waiting-list ordering function is proved (bounded, loop-free) to be the documented strict total order; scenarios with 2-3 (thorough 4) waiters on a resource, object queue (both ends) and priority queue with symbolic priorities, arrival ties, priority changes and departures check that each served waiter is the best among those that were already waiting.',
+             ref='DESIGN.md section 4 C06', note=SIMNOTE + '; pools/buffers (partial fulfilment) and conditions are not covered by the service-order oracle'),
+ 'C07': sim('Pool scripts with symbolic amounts, capacity 3-4 or symbolic in [1,4], priorities symbolic or fixed, preempts, partial fulfilment, interrupts/timeouts/preemptions/stops in the middle of multi-step acquisitions; conservation (in_use = sum of holdings <= capacity) after every event, exact accounting on every return, preemption only from strictly lower priority.', 'DESIGN.md section 4 C07'),
+ 'C08': sim('Quiescence oracle over every guard-based object: after the queue has drained nobody is blocked on a free resource, a pool with units, a buffer/queue with content (getter) or space (putter); families aim at grants coinciding with timeout, interrupt and stop of the granted waiter, roll-backs, drops on exit/stop, leftovers and priority-queue cancellation.', 'DESIGN.md section 4 C08'),
+ 'C09': sim('A victim holding a resource and pool units, with timers armed and waiters registered, ends by return, exit, stop by another process or stop by itself while running, holding, or blocked in hold / guard / wait_process / wait_event / condition / buffer; waiters resumed once with the right code, holdings freed and offered on, no event remains for it, exit value as given.', 'DESIGN.md section 4 C09'),
+ 'C11': sim('Producers/consumers with symbolic amounts (small range in most families, full uint64 range in dedicated ones), capacity fixed, symbolic or unlimited, interrupts/timeouts/stops between partial transfers; level = put - got including the parts moved by still-blocked callers, reported partial amounts exact.', 'DESIGN.md section 4 C11'),
+ 'C12': sim('Object queue (incl. a NULL object) and priority queue with symbolic priorities, capacities 1, 2, symbolic, unlimited, blocking on both ends, interrupts/stops of blocked producers/consumers, reprioritise/cancel by handle and position queries; shadow FIFO / (priority, put order) decides every delivery.', 'DESIGN.md section 4 C12'),
+ 'C13': sim('2-3 (thorough 4) condition waiters with symbolic thresholds and priorities, explicit signals after symbolic state changes, forwarded signals from an observed resource through both registration routes, cancel/remove by the public names, timeouts and interrupts of waiters; resumed with success exactly when the predicate was found true at a signal of that instant.', 'DESIGN.md section 4 C13'),
+ 'C14': sim('All object kinds with recording on: after every event the latest recorded sample must equal the true state (public query) with a time not in the future, sample times non-decreasing, the step function at the end of every instant equals the observed state, and (families with durations chosen from {0,1,2}) the time-weighted mean from cmb_timeseries_summarize equals the integral of the observed trajectory.', 'DESIGN.md section 4 C14'),
 }
 NA = {}
 DEFAULT_NA = 'check under construction in this session; see DESIGN.md'
@@ -41,6 +60,8 @@ m = {
  'engines': [
   {'name': 'E1 symex', 'path': 'lib/symex.py', 'serves_properties': sorted(p for p in CHECKS if 'E1' in CHECKS[p]['engine']),
    'kind_free_text': 'own KLEE-style symbolic executor over clang-14 IR of the real sources, z3 back end, native replay of models'},
+  {'name': 'E2 cbmc', 'path': 'lib/e2.py', 'serves_properties': sorted(p for p in CHECKS if 'E2' in CHECKS[p]['engine']),
+   'kind_free_text': 'CBMC 6.11 on leaf units of the real sources (goto-cc with the release flags), counterexamples replayed natively'},
  ],
  'checks': checks,
  'notes': 'All checks rebuild IR / goto binaries / native replay programs from /repo\'s working tree into a scratch directory under /var/tmp and remove it on exit. VERIF_REPO overrides the tree location (used to run the checks against seeded changes in a scratch worktree).',
